@@ -51,6 +51,11 @@ def configs(tier):
     # C0 >= 2: the growth step is C0 // 2, which is 0 for C0 = 1 (an artefact of scaling, 10000 // 2 != 0)
     for s, c0 in [((2, 2), 2), ((2, 2), 3), ((2, 2), 4), ((3, 1), 2), ((3, 1), 3), ((2, 1, 1), 5)]:
         out.append(dict(key=f"sizes={s},C0={c0}", sizes=list(s), chunk=c0, cost=len(common.all_tuples(s)) * 2))
+    # the public path valid_alignments(continuum) = array building + kernel, for dissimilarities that DECLARE more categories than the
+    # continuum uses (labels a..d declared, b and d used): candidates against the unit-to-unit form d() of the same dissimilarity
+    for dk in ("ordinal", "precomputed", "combined-ordinal", "levenshtein"):
+        for s in [(2, 1), (1, 1, 1)]:
+            out.append(dict(key=f"valid_alignments,declared-superset,{dk},sizes={s}", sizes=list(s), declared=dk, chunk=None, cost=60))
     # IEEE mode (symx.fp): the same kernel source on binary32 pair values / delta_empty with numba's width rules - what the
     # real-arithmetic runs above cannot see (a bound that is right over the reals and wrong after rounding)
     for s, far in [((2, 1), False), ((1, 1, 1), False)] + ([((2, 2), False), ((1, 1, 1, 1), True), ((1, 1, 1, 1, 1), True)] if tier == "thorough" else []):
@@ -156,9 +161,67 @@ def harness(cfg, ns):
                                 core.SymBool(z3.Or(*[lb(e > de) for e in ents])), realize))
         return obls
 
+    def h_declared(ctx):
+        from sortedcontainers import SortedSet
+        ds, co, Segment = ns.ds, ns.co, ns.Segment
+        de = ctx.fresh("de")
+        ctx.solver.add(de.e > 0)
+        declared, used = ["a", "b", "c", "d"], ["b", "d"]
+        dk = cfg["declared"]
+        if dk == "ordinal":
+            D = ds.OrdinalCategoricalDissimilarity(declared, delta_empty=de)
+        elif dk == "levenshtein":
+            declared, used = ["ab", "b", "abc", "bd"], ["b", "bd"]
+            D = ds.LevenshteinCategoricalDissimilarity(declared, delta_empty=de)
+        elif dk == "precomputed":
+            M = real_np.array([[0, 1, 4, 9], [1, 0, 2, 5], [4, 2, 0, 3], [9, 5, 3, 0]], dtype=float) / 4.0
+            D = ds.PrecomputedCategoricalDissimilarity(SortedSet(declared), ns.np.array(M, dtype=ns.np.float32), delta_empty=de)
+        else:
+            D = ds.CombinedCategoricalDissimilarity(alpha=1, beta=2, delta_empty=de, cat_dissim=ds.OrdinalCategoricalDissimilarity(declared, delta_empty=de))
+        c = co.Continuum()
+        units = {}
+        uid = 0
+        for a, sz in enumerate(sizes):
+            c.add_annotator(common.ANN[a])
+            for j in range(sz):
+                lab = used[(a + j) % 2]
+                seg = Segment(core.const(3 * j + a), core.const(3 * j + a + 2))
+                c.add(common.ANN[a], seg, lab)
+                units[(a, j)] = co.Unit(seg, lab)
+                uid += 1
+
+        def realize(m):
+            return dict(kind="declared", declared=dk, sizes=list(sizes), de=common.frs(mval(m, de)))
+        ctx.notes["realize"] = realize
+        ctx.notes["inputs"] = [de]
+        ctx.notes["scales"] = [de]
+        dis, al = D.valid_alignments(c)
+        got = {}
+        for k in range(min(len(al), len(dis))):
+            got[tuple(int(x) for x in al[k])] = dis[k]
+        obls = [Obl("declared:each-once", len(got) == len(al) == len(dis), realize)]
+        for t in tuples_all:
+            if all(t[a] == sizes[a] for a in range(n)):
+                obls.append(Obl("declared:all-empty-absent", t not in got, realize))
+                continue
+            tot = 0
+            for a in range(n):
+                for b in range(a):
+                    tot = tot + (de if (t[a] == sizes[a] or t[b] == sizes[b]) else D.d(units[(a, t[a])], units[(b, t[b])]))
+            under = core.approx_le(tot, n * de * c2n, scale=de)
+            over = core.approx_le(n * de * c2n, tot, scale=de)
+            if t in got:
+                obls.append(Obl(f"declared:present=>under-cut(by d())[{t}]", under, realize))
+                obls.append(Obl(f"declared:disorder==mean-of-d()[{t}]", core.approx(got[t], tot / c2n, scale=de), realize))
+            else:
+                obls.append(Obl(f"declared:absent=>over-cut(by d())[{t}]", over, realize))
+        return obls
+
     def h(ctx):
         if cfg.get("ieee"):
             return h_ieee(ctx)
+        if cfg.get("declared"):
+            return h_declared(ctx)
         if kernel is None:
             raise core.Cut("scaled-capacity statement `chunk_size = 10000` not found")
         de = ctx.fresh("de")
@@ -312,6 +375,56 @@ def _replay_ieee(case):
     return dict(reproduced=bool(bad), detail="; ".join(bad[:3]))
 
 
+def _replay_declared(case):
+    import itertools
+    import numpy as np
+    import pygamma_agreement as pa
+    from pyannote.core import Segment
+    from sortedcontainers import SortedSet
+    sizes, dk = case["sizes"], case["declared"]
+    n = len(sizes)
+    c2n = n * (n - 1) // 2
+    bad = []
+    for de in sorted({float(Fraction(case["de"])), 1.0, 0.5}):
+        declared, used = ["a", "b", "c", "d"], ["b", "d"]
+        if dk == "ordinal":
+            D = pa.OrdinalCategoricalDissimilarity(declared, delta_empty=de)
+        elif dk == "levenshtein":
+            declared, used = ["ab", "b", "abc", "bd"], ["b", "bd"]
+            D = pa.LevenshteinCategoricalDissimilarity(declared, delta_empty=de)
+        elif dk == "precomputed":
+            M = np.array([[0, 1, 4, 9], [1, 0, 2, 5], [4, 2, 0, 3], [9, 5, 3, 0]], dtype=np.float32) / 4.0
+            D = pa.PrecomputedCategoricalDissimilarity(SortedSet(declared), M, delta_empty=de)
+        else:
+            D = pa.CombinedCategoricalDissimilarity(alpha=1, beta=2, delta_empty=de, cat_dissim=pa.OrdinalCategoricalDissimilarity(declared, delta_empty=de))
+        c = pa.Continuum()
+        units = {}
+        for a, sz in enumerate(sizes):
+            c.add_annotator(common.ANN[a])
+            for j in range(sz):
+                lab = used[(a + j) % 2]
+                seg = Segment(3 * j + a, 3 * j + a + 2)
+                c.add(common.ANN[a], seg, lab)
+                units[(a, j)] = pa.Unit(seg, lab)
+        try:
+            dis, al = D.valid_alignments(c)
+        except Exception as ex:     # noqa: BLE001
+            return dict(reproduced=True, detail="valid_alignments raised " + repr(ex)[:200])
+        got = {tuple(int(x) for x in al[k]): float(dis[k]) for k in range(len(al))}
+        for t in itertools.product(*[range(s + 1) for s in sizes]):
+            if all(t[a] == sizes[a] for a in range(n)):
+                continue
+            tot = sum(de if (t[a] == sizes[a] or t[b] == sizes[b]) else float(D.d(units[(a, t[a])], units[(b, t[b])])) for a in range(n) for b in range(a))
+            cut = n * c2n * de
+            if abs(tot - cut) < 1e-4 * cut:
+                continue
+            if (tot <= cut) != (t in got):
+                bad.append(f"delta_empty={de}: tuple {t} candidate={t in got}, sum of d() {tot} vs cut {cut}")
+            elif t in got and abs(got[t] - tot / c2n) > 1e-4 * max(1.0, tot / c2n):
+                bad.append(f"delta_empty={de}: tuple {t} carries {got[t]}, mean of d() is {tot / c2n}")
+    return dict(reproduced=bool(bad), detail="; ".join(bad[:3]))
+
+
 def _oracle(sizes, de, pairs):
     import itertools
     n = len(sizes)
@@ -342,6 +455,8 @@ def replay(case):
         return r
     if case.get("kind") == "ieee-kernel":
         return _replay_ieee(case)
+    if case.get("kind") == "declared":
+        return _replay_declared(case)
     sizes = case["sizes"]
     if case.get("chunk") is not None:
         # a scaled-capacity counterexample: first the same inputs at the real capacity; if the
